@@ -52,8 +52,10 @@ type StreamManager struct {
 
 	wg sync.WaitGroup
 	// waiting: Run has added to wg and is (or will be) waiting on it, nobody has released it yet
+	// stopped: Stop has been called since Run started
 	mu      sync.Mutex
 	waiting bool
+	stopped bool
 }
 
 type PostConnect func(c Sender)
@@ -100,6 +102,7 @@ func (sm *StreamManager) Run() error {
 
 	sm.mu.Lock()
 	sm.waiting = true
+	sm.stopped = false
 	sm.wg.Add(1)
 	sm.mu.Unlock()
 	if err := sm.connect(); err != nil {
@@ -123,6 +126,11 @@ func (sm *StreamManager) release() {
 
 // Stop cancels pending operations and terminates existing XMPP client.
 func (sm *StreamManager) Stop() {
+	// Tell the reconnection loop, which may be running at this very moment (in the go routine that reported the
+	// loss of the connection), that nobody waits for a new session any more.
+	sm.mu.Lock()
+	sm.stopped = true
+	sm.mu.Unlock()
 	// Remove on disconnect handler to avoid triggering reconnect
 	sm.client.SetHandler(nil)
 	sm.client.Disconnect()
@@ -153,6 +161,9 @@ func (sm *StreamManager) resume() error {
 	var backoff backoff // TODO: Group backoff calculation features with connection manager?
 
 	for {
+		if sm.isStopped() {
+			return nil
+		}
 		var err error
 		// TODO: Make it possible to define logger to log disconnect and reconnection attempts
 		sm.Metrics = initMetrics()
@@ -169,10 +180,21 @@ func (sm *StreamManager) resume() error {
 		}
 	}
 
+	if sm.isStopped() {
+		// Stop came while this attempt was under way: its session is not handed over to anybody.
+		sm.client.Disconnect()
+		return nil
+	}
 	if sm.PostConnect != nil {
 		sm.PostConnect(sm.client)
 	}
 	return nil
+}
+
+func (sm *StreamManager) isStopped() bool {
+	sm.mu.Lock()
+	defer sm.mu.Unlock()
+	return sm.stopped
 }
 
 // Stream Metrics
